@@ -100,7 +100,7 @@ def info(tier):
         "point x min/max x tol x 5 methods; linprog statuses 0-4); every OPTIMAL solution's constraints and bounds are "
         "re-evaluated by the reference interpreter; distinct = canonical (problem, method, options | stub script) hashes"
         % len(message_catalogue()),
-        "required_cells": ["A:feasible", "A:infeasible", "A:boundary", "A:lp-feasible", "A:lp-infeasible", "A:deep-constraint", "A:edit-then-resolve", "A:mixed-degree-vector", "A:view-order-constraint", "A:parametric-linear-after-set", "A:symmetric-matrix-reduction", "A:big-single-vector-lp", "A:variable-free-constraint", "A:bounds-exactly-zero"]
+        "required_cells": ["A:feasible", "A:infeasible", "A:boundary", "A:lp-feasible", "A:lp-infeasible", "A:deep-constraint", "A:edit-then-resolve", "A:mixed-degree-vector", "A:view-order-constraint", "A:parametric-linear-after-set", "A:symmetric-matrix-reduction", "A:big-single-vector-lp", "A:variable-free-constraint", "A:bounds-exactly-zero", "A:lp-spelling-sweep"]
         + [f"A:method:{m}" for m in sorted(set(NLP_METHODS + LP_METHODS))]
         + [f"B:point:{p}" for p in ("feasible", "violates-le", "violates-ge", "violates-eq", "violates-lb", "violates-ub")]
         + ["B:success:True", "B:success:False", "B:linprog"],
@@ -415,6 +415,16 @@ def option_sets(rng, method, lp):
 
 def workload_a(ctx, rec):
     rng = ctx.rng
+    # directed sweep on the LP route (no post-solve check there): every vector / block spelling of the LP writer x sense, the optimum
+    # pushed against the written constraint
+    i = 0
+    for form in L.VECTOR_FORMS + L.BLOCK_FORMS:
+        for s_ in ("<=", ">=", "=="):
+            i += 1
+            if ctx.mine(i):
+                prob = L.form_lp(rng, form, s_) if form in L.VECTOR_FORMS else L.block_lp(rng, form, s_)
+                for m in ("auto", "highs-ds", "SLSQP"):
+                    run_real(rec, rng, prob, "A:lp-spelling-sweep", m, {})
     n = 0
     k = ctx.shard
     while n < N_RANDOM[ctx.tier] and not rec.out_of_time():
